@@ -32,9 +32,10 @@ Proof.
   destruct (zget k ex) as [[o rc]|]; reflexivity.
 Qed.
 
+Definition yourref_exn : exn := match yourref_unknown_clid with RejectR => EViolation | AbortR => EKeyError end.
 Lemma yourref_close_spec (ex : list (Z * (Z * Z))) k :
   gen_yourref_close (gen_get_my_reference ex) (Some k) =
-  if k =? 0 then XOk TBroker else match @zget (Z * Z) k ex with Some (o, _) => XOk (TObj o) | None => XRaise EKeyError end.
+  if k =? 0 then XOk TBroker else match @zget (Z * Z) k ex with Some (o, _) => XOk (TObj o) | None => XRaise yourref_exn end.
 Proof.
   unfold gen_yourref_close. cbn [is_none_]. rewrite lookup_T_spec.
   destruct (k =? 0); [reflexivity|]. destruct (zget k ex) as [[o rc]|]; reflexivity.
@@ -125,15 +126,49 @@ Proof.
     split; first [reflexivity | discriminate].
 Qed.
 
+(* ------------------------------------------------------------------ the name tables: translated _assignName / getReferenceForName *)
+Lemma sget__eq {V} k (l : list (string * V)) : sget_ k l = sget k l.
+Proof. induction l as [|[k' v] l IH]; cbn; [reflexivity|]. destruct (String.eqb k k'); auto. Qed.
+Lemma sdel__eq {V} k (l : list (string * V)) : sdel_ k l = sdel k l.
+Proof. induction l as [|[k' v] l IH]; cbn; [reflexivity|]. destruct (String.eqb k k'); [auto | rewrite IH; reflexivity]. Qed.
+Lemma sset__eq {V} k (v : V) l : sset_ k v l = sset k v l.
+Proof. unfold sset_, sset. rewrite sdel__eq. reflexivity. Qed.
+Lemma zset__eq {V} k (v : V) l : zset_ k v l = zset k v l.
+Proof. unfold zset_, zset. rewrite zdel__eq. reflexivity. Qed.
+Lemma set_names_id st : set_names st (s_n2r st) (s_r2n st) = st.
+Proof. destruct st; reflexivity. Qed.
+Lemma truthy_str_empty p : truthy_str p = negb (str_empty p).
+Proof. destruct p; reflexivity. Qed.
+
+Theorem assign_name_T_eq : forall st o pref sw, assign_name_T st o pref sw = assign_name st o pref sw.
+Proof.
+  intros st o pref sw. unfold assign_name_T, assign_name, gen_assign_name. cbn [negb].
+  unfold zhas_. repeat rewrite zget__eq. destruct (zget o (s_r2n st)) as [nm|]; cbn [is_some_].
+  - apply set_names_id.
+  - rewrite truthy_str_empty, negb_involutive. destruct (str_empty pref); rewrite sset__eq, zset__eq; reflexivity.
+Qed.
+
+Theorem found_name_T_eq : forall w st n, found_name_T w st n = found_name w st n.
+Proof.
+  intros w st n. unfold found_name_T, found_name, gen_get_reference_for_name, handler_answers_cached.
+  unfold shas_, zhas_. rewrite (sget__eq n (s_n2r st)), (sget__eq n (s_h st)). destruct (sget n (s_n2r st)) as [o|]; cbn [is_some_].
+  - rewrite set_names_id. reflexivity.
+  - destruct (sget n (s_h st)) as [o|]; [|reflexivity].
+    rewrite zget__eq. destruct (zget o (s_r2n st)) as [nm|]; cbn [is_some_ is_some negb].
+    + rewrite set_names_id. reflexivity.
+    + rewrite zset__eq. reflexivity.
+Qed.
+
 Definition all_kinds_ok (w : world) (st : state) : Prop := forall c, kinds_ok w (get_conn st c).
 
 Theorem step_T_eq : forall w st e, all_kinds_ok w st -> step_T w st e = step w st e.
 Proof.
   intros w st e K. destruct e as [n o sw|o|n cls|n cls em|o d|n o|n| |c o sw|c req clid m args|c t|c]; try reflexivity.
+  { cbn [step_T step]. rewrite assign_name_T_eq. reflexivity. }
   cbn [step_T step]. destruct (negb (c_alive (get_conn st c))) eqn:AL; [reflexivity|].
   destruct (clid =? broker_clid) eqn:BC.
   - destruct (broker_call m args) as [out fx] eqn:B.
-    destruct fx; cbn [step]; rewrite ?AL, ?BC, ?B, ?decref_T_eq; reflexivity.
+    destruct fx; cbn [step]; rewrite ?AL, ?BC, ?B, ?decref_T_eq, ?found_name_T_eq; reflexivity.
   - apply Z.eqb_neq in BC. unfold broker_clid in BC.
     rewrite (obj_call_T_eq _ _ _ _ _ _ (kinds_ok_eff _ _ _ (K c)) BC). reflexivity.
 Qed.
@@ -581,17 +616,88 @@ Lemma open_types_closed_all :
   top_types = [["answer"]; ["call"]; ["error"]]%string.
 Proof. split; [exact open_types_closed | split; [exact no_code_types | exact top_types_pinned]]. Qed.
 
-(* "every other object id ... fails THAT request": REFUTED for a your-reference ARGUMENT naming an id the connection's table does
-   not hold.  YourReferenceUnslicer.receiveClose lets the KeyError of Broker.getMyReferenceByCLID escape (its own
-   `if not obj: raise Violation` is never reached), Banana.handleData drops the connection: every other request on it dies and
-   the whole export table of that connection is lost.  (translated: yourref_unknown_clid = AbortR; gen_yourref_close) *)
-Definition yr_hist : list event :=
-  [Grant CA 1 "sw0"; Grant CA 2 "sw1"; Msg CA 5 1 (MStr "hi") [AYourRef 99]].
-Theorem unknown_yourref_drops_connection_refuted :
-  exists w h st rs, run w init h = (st, rs) /\ h = yr_hist /\
-    map r_out rs = [Local; Local; Aborted] /\ c_alive (get_conn st CA) = false /\ c_exports (get_conn st CA) = [] /\
-    (* before the message the peer held two references on that connection *)
-    List.length (c_exports (get_conn (fst (run w init (firstn 2 h))) CA)) = 2%nat.
+(* ------------------------------------------------------------------ what still drops a connection *)
+Lemma do_args_abort copy ex args : forall inst i,
+  do_args copy ex args inst = ArgsFail i AbortR -> exists k, In (AYourRef k) args /\ k < 0.
 Proof.
-  exists rf_world, yr_hist. eexists. eexists. split; [vm_compute; reflexivity|]. vm_compute. repeat split; reflexivity.
+  induction args as [|a args IH]; intros inst i H; cbn [do_args] in H; [discriminate|].
+  destruct a as [v|s|k|n|t].
+  - destruct (IH _ _ H) as [k [A B]]. exists k; split; [right; exact A | exact B].
+  - destruct (IH _ _ H) as [k [A B]]. exists k; split; [right; exact A | exact B].
+  - unfold yourref_accepts_neg in H. cbn [negb] in H. rewrite andb_true_r in H. destruct (k <? 0) eqn:N.
+    + exists k. split; [left; reflexivity | apply Z.ltb_lt; exact N].
+    + destruct ((k =? broker_clid) || is_some (zget k ex)).
+      * destruct (IH _ _ H) as [k' [A B]]. exists k'; split; [right; exact A | exact B].
+      * destruct clid_lookup; discriminate.
+  - destruct (sget n copy).
+    + destruct (IH _ _ H) as [k [A B]]. exists k; split; [right; exact A | exact B].
+    + discriminate.
+  - destruct (mem_type [t] open_types).
+    + destruct (IH _ _ H) as [k [A B]]. exists k; split; [right; exact A | exact B].
+    + discriminate.
 Qed.
+
+(* the ONLY inbound call that still costs the peer its connection is a protocol error: a NEG token inside a your-reference
+   (YourReferenceUnslicer.checkToken: BananaError).  Unknown ids -- as target or as argument --, unknown names, classes, OPEN types
+   and method names that are not UTF-8 all fail just that request. *)
+Theorem dropped_only_for_protocol_error : forall w st c req clid m args st' r,
+  step w st (Msg c req clid m args) = (st', r) -> r_out r = Aborted ->
+  clid <> 0 /\ exists k, In (AYourRef k) args /\ k < 0.
+Proof.
+  intros w st c req clid m args st' r H Hout.
+  destruct (step_msg_shape _ _ _ _ _ _ _ _ _ H) as [[_ [E R]]|[[_ [B0 [out [fx [B [Ho [_ F]]]]]]]|[_ [NB [inst [out [O [R E]]]]]]]].
+  - subst. discriminate.
+  - exfalso. rewrite Ho in Hout. subst out. unfold broker_call in B.
+    destruct m as [s|]; [|unfold methodname_undecodable in B; discriminate].
+    destruct (iface_enforced && negb (mem_str s broker_methods)); [discriminate|].
+    destruct (negb (mem_str (remote_prefix ++ s) broker_remote_attrs)); [discriminate|].
+    destruct (String.eqb s "getReferenceByName"). { destruct args as [|[v|b|k|n|t] [|? ?]]; discriminate. }
+    destruct (String.eqb s "decref"). { destruct args as [|[v|b|k|n|t] [|[v2|b2|k2|n2|t2] [|? ?]]]; discriminate. }
+    destruct (String.eqb s "decgift"). { destruct args as [|[v|b|k|n|t] [|[v2|b2|k2|n2|t2] [|? ?]]]; discriminate. }
+    discriminate.
+  - split; [exact NB|]. subst r. cbn [r_out] in Hout. subst out. unfold obj_call in O.
+    destruct (zget clid (c_exports (get_conn st c))) as [[o rc]|].
+    2:{ destruct clid_lookup; [unfold call_unknown_clid in O|]; discriminate. }
+    assert (D : forall i, do_args (s_copy st) (c_exports (get_conn st c)) args [] = ArgsFail i AbortR ->
+                          exists k, In (AYourRef k) args /\ k < 0) by (intros i; apply do_args_abort).
+    destruct ((clid <? 0) && negative_clid_ignores_name).
+    { destruct (do_args (s_copy st) (c_exports (get_conn st c)) args []) as [i|i rf] eqn:DA; [discriminate|].
+      destruct rf; [discriminate | eapply D; reflexivity]. }
+    destruct m as [s|]; [|unfold methodname_undecodable in O; discriminate].
+    destruct (iface_enforced && _); [discriminate|].
+    destruct (do_args (s_copy st) (c_exports (get_conn st c)) args []) as [i|i rf] eqn:DA.
+    + destruct (mem_str _ _); discriminate.
+    + destruct rf; [discriminate | eapply D; reflexivity].
+Qed.
+
+(* "every other object id ... fails THAT request", for a your-reference ARGUMENT naming an id the connection's table does not
+   hold (since 0058e18): exactly that request is refused -- the connection stays, no table changes, nothing is sent *)
+Theorem unknown_yourref_fails_only_that_request : forall w st c req clid m args st' r k,
+  step w st (Msg c req clid m args) = (st', r) -> clid <> 0 -> c_alive (get_conn st c) = true ->
+  In (AYourRef k) args -> k <> 0 -> zget k (c_exports (get_conn st c)) = None ->
+  (forall k', In (AYourRef k') args -> 0 <= k') ->
+  r_out r = Reject /\ st' = st /\ r_sent r = [] /\ c_alive (get_conn st' c) = true.
+Proof.
+  intros w st c req clid m args st' r k H NZ AL Hin KZ G NN.
+  assert (R : r_out r = Reject).
+  { destruct (r_out r) as [e| | | |] eqn:O; [| reflexivity | | |].
+    - exfalso. destruct (bad_argument_never_enters _ _ _ _ _ _ _ _ _ _ H O NZ) as [_ [_ C]].
+      destruct (C k Hin) as [?|[o [rc E]]]; [contradiction|]. rewrite G in E. discriminate.
+    - exfalso. destruct (dropped_only_for_protocol_error _ _ _ _ _ _ _ _ _ H O) as [_ [k' [A B]]]. specialize (NN k' A). lia.
+    - exfalso. destruct (step_msg_shape _ _ _ _ _ _ _ _ _ H) as [[A _]|[[_ [B0 _]]|[_ [_ [inst [out [OC [Rr E]]]]]]]].
+      + rewrite AL in A. discriminate.
+      + unfold broker_clid in B0. contradiction.
+      + subst r. cbn [r_out] in O. subst out. destruct (obj_call_kinds _ _ _ _ _ _ _ _ OC) as [X _]. contradiction.
+    - exfalso. destruct (step_msg_shape _ _ _ _ _ _ _ _ _ H) as [[A _]|[[_ [B0 _]]|[_ [_ [inst [out [OC [Rr E]]]]]]]].
+      + rewrite AL in A. discriminate.
+      + unfold broker_clid in B0. contradiction.
+      + subst r. cbn [r_out] in O. subst out. destruct (obj_call_kinds _ _ _ _ _ _ _ _ OC) as [_ X]. contradiction. }
+  destruct (refusal_pure _ _ _ _ _ _ _ _ _ H (or_introl R)) as [E S]. subst st'. auto.
+Qed.
+
+Definition yr_hist : list event :=
+  [Grant CA 1 "sw0"; Grant CA 2 "sw1"; Msg CA 5 1 (MStr "hi") [AYourRef 99]; Msg CA 6 2 (MStr "hi") []].
+Example ex_unknown_yourref :
+  map r_out (snd (run rf_world init yr_hist)) = [Local; Local; Reject; Enter (EObj 2 "remote_hi")] /\
+  List.length (c_exports (get_conn (fst (run rf_world init yr_hist)) CA)) = 2%nat.
+Proof. vm_compute. split; reflexivity. Qed.
